@@ -74,8 +74,9 @@ def _single_cases(tier):
                 continue      # ambiguous: enum/const flagged nullable without listing null (DESIGN §2.4)
             kinds.append(["nullable", k, n])
     kinds += [["nullable", "enum_str", "enumnull"], ["nullable", "enum_int", "enumnull"]]
+    kinds += [["array", ["array", k]] for k in atoms]
     if tier == "thorough":
-        kinds += [["array", ["array", k]] for k in atoms]
+        kinds += [["array", ["array", ["array", k]]] for k in ("date", "uuid", "model_ref", "enum_str", "int")]
         kinds += [["array", ["union", a, b]] for a in atoms for b in atoms if a < b]
         kinds += [["union", ["array", a], b] for a in atoms for b in atoms]
         kinds += [["nullable", ["array", k], n] for k in atoms for n in ("t30", "t31", "oneof")]
